@@ -255,4 +255,47 @@ mod verif_graph {
     #[kani::proof]
     #[kani::unwind(5)]
     fn graph_cycsort_two() { cyc_direct(0, true); kani::cover!(true); }
+
+    // ---- C06: an asset reached through two notified entries in one pass is listed exactly once;
+    // an event for an entry nobody recorded selects nothing (direct graph state, cheap capacity).
+    fn two_paths_case(leaf_has_dependent: bool) {
+        let mut g = DepsGraph::new();
+        // A reads F0 and F1; optionally B depends on A
+        g.0.insert(fdep(0), node_with_rdeps(&[0]));
+        g.0.insert(fdep(1), node_with_rdeps(&[0]));
+        if leaf_has_dependent {
+            g.0.insert(adep(0), node_with_rdeps(&[1]));
+            g.0.insert(adep(1), node_with_rdeps(&[]));
+        } else {
+            g.0.insert(adep(0), node_with_rdeps(&[]));
+        }
+        let unknown = OwnedDirEntry::File(SharedString::from("q"), SharedString::from("x"));
+        assert!(!g.contains(&unknown) && g.contains(&fentry(0)));
+        let ev = [fentry(0), fentry(1), unknown, fentry(0)];
+        let sorted = g.topological_sort_from(ev.iter());
+        let mut n = 0;
+        let mut seen_a = 0;
+        let mut pos_a = 9;
+        let mut pos_b = 9;
+        for k in sorted.into_iter() {
+            if index_of(&k) == 0 { seen_a += 1; pos_a = n; } else { pos_b = n; }
+            n += 1;
+            assert!(n <= 4);
+        }
+        assert_eq!(seen_a, 1, "an asset reached through two notified entries is rewritten twice in one pass");
+        assert_eq!(n, if leaf_has_dependent { 2 } else { 1 }, "the update list is not exactly the affected assets");
+        if leaf_has_dependent { assert!(pos_a < pos_b, "a dependent is updated before its dependency"); }
+        std::mem::forget(g);
+        std::mem::forget(ev);
+    }
+
+    // @h name=graph_two_paths_leaf tier=quick cap=3 timeout=600 props=C06,C05 role=asset+reading+two+notified+files
+    #[kani::proof]
+    #[kani::unwind(6)]
+    fn graph_two_paths_leaf() { two_paths_case(false); kani::cover!(true); }
+
+    // @h name=graph_two_paths_chain tier=thorough cap=4 timeout=3600 mem=24 props=C06,C05 role=asset+reading+two+notified+files+with+a+dependent
+    #[kani::proof]
+    #[kani::unwind(7)]
+    fn graph_two_paths_chain() { two_paths_case(true); kani::cover!(true); }
 }
